@@ -154,11 +154,20 @@ func (c *Ctx) Account(res *RunResult, key string, nontrivial bool, sample any) {
 		}
 	}
 	for _, ir := range allIncs {
-		if len(ir.Entries) > 0 {
-			first, last := ir.Entries[0], ir.Entries[len(ir.Entries)-1]
-			if last.SimMs > first.SimMs {
-				c.simMs += last.SimMs - first.SimMs
+		var lo, hi int64
+		for _, e := range ir.Entries {
+			if e.SimMs <= 0 {
+				continue // written outside the bubble (watchdog entries)
 			}
+			if lo == 0 || e.SimMs < lo {
+				lo = e.SimMs
+			}
+			if e.SimMs > hi {
+				hi = e.SimMs
+			}
+		}
+		if hi > lo {
+			c.simMs += hi - lo
 		}
 		if ir.Exit == 77 {
 			c.faultCounts["process_crash"]++
